@@ -81,7 +81,9 @@ def generate(rng, tier, idx):
     for d in roles['package_dirs']:
         if rng.random() < 0.35:
             dist.append({'dir': d, 'names': ['%s-%d.tar.gz' % (os.path.basename(d), i) for i in range(rng.choice([1, 2]))],
-                         'ignore': rng.random() < 0.2})
+                         'ignore': rng.random() < 0.2,
+                         # hand-edited files: no newline after the last line, CR-LF line ends, the IGNORE line first
+                         'ending': rng.choice(['\n', '\n', '', '', '\r\n', '\n\n']), 'ignore_first': rng.random() < 0.3})
     mode = 'meta' if rng.random() < 0.8 else 'single'
     edits = []
     pk = roles['package_dirs']
@@ -149,11 +151,16 @@ def execute(sc):
                 data = ('dist ' + n).encode()
                 lines.append(G.entry_line({'tag': 'DIST', 'path': n, 'size': len(data), 'sums': G.digests(data, ['BLAKE2B', 'SHA512'])}))
             if d.get('ignore'):
-                lines.append('IGNORE some-local-file')
+                if d.get('ignore_first'):
+                    lines.insert(0, 'IGNORE some-local-file')
+                else:
+                    lines.append('IGNORE some-local-file')
             p = os.path.join(w.root, d['dir'], 'Manifest')
             if os.path.isdir(os.path.dirname(p)):
-                with _o['open'](p, 'w') as f:
-                    f.write('\n'.join(lines) + '\n')
+                end = d.get('ending', '\n')
+                sep = '\r\n' if end == '\r\n' else '\n'
+                with _o['open'](p, 'w', newline='') as f:
+                    f.write(sep.join(lines) + end)
         clock = Clock(epoch_ns=w.epoch_ns + 50_000_000_000, key=sc['order_key'], mode='micro')
         seam = Seam(w.root, order_key=sc['order_key'], virtual_root=True, clock=clock)
         old_mp = gen_fast_metamanifest.multiprocessing
